@@ -96,6 +96,10 @@ func (t *indexTarget) info() targetInfo {
 	}
 }
 
+func (t *indexTarget) setInfo(info targetInfo) {
+	t.doc, t.depData, t.data = info.Doc, info.Dependencies, info.stamp()
+}
+
 func (t *indexTarget) upToDate() (bool, string, diff.ValueDiff, error) {
 	return true, "", nil, nil
 }
